@@ -351,6 +351,32 @@ def phot_stream(rep, r, n, lines, exps, metas):
                     img * 3, init_params=init2, mask=mask)
             if not np.allclose(res3['flux_fit'], 3 * np.asarray(res['flux_fit']), rtol=1e-4):
                 rep.violation('flux-not-scaling', 'scaling the image by 3 does not scale the fitted fluxes by 3', replay)
+            # the same for scale factors far from 1 (images in calibrated flux units): powers of two, so that the scaled scene is the
+            # same scene bit for bit up to the exponent
+            for kk_ in ([2.0 ** 40, 2.0 ** -30] if k % 6 == 0 else [2.0 ** -60]):
+                with warnings.catch_warnings():
+                    warnings.simplefilter('ignore')
+                    initk = init.copy()
+                    initk['flux'] = np.asarray(init['flux']) * kk_
+                    if 'local_bkg' in initk.colnames:
+                        initk['local_bkg'] = np.asarray(init['local_bkg']) * kk_
+                    try:
+                        resk = PSFPhotometry(model, fit_shape, grouper=SourceGrouper(sep), aperture_radius=4, progress_bar=False)(
+                            img * kk_, init_params=initk, mask=mask)
+                    except Exception as e:                      # noqa: BLE001
+                        rep.violation(f'psfphot-raises:scaled-image:{type(e).__name__}', f'PSFPhotometry on the image scaled by {kk_:g} raised {e!r}', replay)
+                        continue
+                rep.count(f'flux-scaling-probe:2^{int(round(math.log2(kk_)))}')
+                ok_ = np.allclose(np.asarray(resk['flux_fit'], float) / kk_, np.asarray(res['flux_fit'], float), rtol=1e-4) and \
+                    np.allclose(resk['x_fit'], res['x_fit'], atol=1e-3) and np.allclose(resk['y_fit'], res['y_fit'], atol=1e-3)
+                if not ok_:
+                    moved = not (np.array_equal(np.asarray(resk['x_fit']), np.asarray(resk['x_init'])) and np.array_equal(np.asarray(resk['y_fit']), np.asarray(resk['y_init'])))
+                    tag = 'small-scale' if kk_ < 2.0 ** -20 else 'large-scale'
+                    rep.violation(f'flux-not-scaling:{tag}' + ('' if moved else ':fit-did-not-start'),
+                                  f'scaling the image (and the initial fluxes) by 2^{int(round(math.log2(kk_)))} does not scale the fitted fluxes: flux_fit / k = '
+                                  f'{(np.asarray(resk["flux_fit"], float) / kk_).tolist()} instead of {np.asarray(res["flux_fit"], float).tolist()}; '
+                                  + ('positions fitted' if moved else 'x_fit, y_fit equal the initial values (the optimiser stopped at once), flags ' + str([int(v) for v in resk["flags"]])),
+                                  dict(replay, scale=kk_))
             mfix = model.copy()
             mfix.x_0.fixed = True
             with warnings.catch_warnings():
